@@ -34,7 +34,8 @@ def run(tier):
             alpha = rng.uniform(0.005, 0.04)
             visc = rng.choice([0.0, 0.0, 0.11])
             n = rng.choice([1, 5, 40])
-            U = np.array(sorted(rng.uniform(0.1, 80.0) for _ in range(n)))
+            # winds log-uniform in 0.1 .. 80 m/s (light winds are as frequent as gales)
+            U = np.array(sorted(math.exp(rng.uniform(math.log(0.1), math.log(80.0))) for _ in range(n)))
             # missing winds: a few, or (every third configuration) more missing than valid values
             pnan = 0.7 if rep % 3 == 2 else 0.2
             nanpos = [i for i in range(n) if n > 1 and rng.random() < pnan]
@@ -74,8 +75,10 @@ def run(tier):
         # ---- Janssen (wave dependent) roughness -------------------------------------------------------------------------------------
         f = pc.freq()
         bal = create_balance("st4", "st4")
-        gen = bal.generation
-        for N, start in ([(24, 0), (36, 0)] if quick else [(16, 0), (24, 0), (24, 5), (36, 0)]):
+        bal_visc = create_balance("st4", "st4")
+        bal_visc.generation.update_parameters({"viscous_stress_parameter": 0.11})      # total stress = wave supported + tail + VISCOUS
+        for ci_, (N, start) in enumerate([(24, 0), (36, 0)] if quick else [(16, 0), (24, 0), (24, 5), (36, 0), (24, 0), (36, 5)]):
+            gen = (bal_visc if ci_ % 2 else bal).generation
             dirs = [start + j * 360.0 / N for j in range(N)]
             B = 4 if quick else 10
             vds, winds, wdirs, depths = [], [], [], []
